@@ -402,38 +402,39 @@ fn run_core(case: &Case) -> String {
     let legacy = case.host == Host::Legacy;
     let core: Core<App> = Core::new();
     let mut raws: Vec<Option<usize>> = vec![None; n];
+    let mut created: Vec<Option<usize>> = vec![]; // raw ids in creation order
     let mut seen_log = 0usize;
     let mut launched = vec![false; n];
     let mut has_handle = vec![!legacy; n];
     let mut held: Vec<Held> = (0..n).map(|_| Held::default()).collect();
-    let mut dead = false;
+    let mut dead = vec![false; n];
     let mut out = vec![];
     if !legacy {
         let effects = core.process_event(Event::Init(case.kinds.clone()));
         assert!(effects.is_empty());
         raws = core.view().raws;
+        created = raws.clone();
     }
     let flush = [('t', 0usize)];
     for &(a, i) in case.actions.iter().chain(flush.iter()) {
-        if dead {
-            out.push("dead".into());
-            continue;
-        }
         let mut rec: Vec<String> = vec![];
         // what to do: an event for the core, a resolve through the core, or something outside the core
         enum Do {
             Na,
+            Nothing,
             Ev(Event),
             Resolve(bool, TimeResponse),
             Drop(bool),
         }
         let started = raws[i].is_some();
         let what = match a {
+            't' => Do::Nothing,
+            _ if dead[i] => Do::Na,
             'p' if !legacy && !launched[i] => {
                 launched[i] = true;
                 Do::Ev(Event::Launch(i))
             }
-            'p' | 't' => Do::Ev(Event::Tick),
+            'p' => Do::Nothing,
             's' | 'S' if started => Do::Na,
             's' | 'S' => Do::Ev(Event::LStart(i, case.kinds[i], a == 'S')),
             'c' if legacy && started => Do::Ev(Event::LClear(i)),
@@ -449,8 +450,10 @@ fn run_core(case: &Case) -> String {
             'x' if held[i].clr.is_some() => Do::Drop(true),
             _ => Do::Na,
         };
+        let was_dead = a != 't' && dead[i];
         let r = catch_unwind(AssertUnwindSafe(|| match what {
             Do::Na => ("na", vec![]),
+            Do::Nothing => ("-", vec![]),
             Do::Ev(ev) => ("-", core.process_event(ev)),
             Do::Resolve(is_clear, resp) => {
                 let slot = if is_clear { held[i].clr.as_mut() } else { held[i].req.as_mut() };
@@ -464,26 +467,36 @@ fn run_core(case: &Case) -> String {
                 ("-", vec![])
             }
         }));
-        match r {
+        let mut effects = match r {
             Err(_) => {
-                dead = true;
+                dead[i] = true;
                 rec.push("panic".into());
+                vec![]
             }
             Ok((res, effects)) => {
-                rec.push(res.into());
-                let view = core.view();
-                raws = view.raws;
-                raws.resize(n, None);
-                stash(&raws, &mut held, &mut rec, effects);
-                for l in &view.log[seen_log..] {
-                    rec.push(show_log(&raws, l));
-                }
-                seen_log = view.log.len();
+                rec.push(if was_dead { "dead" } else { res }.into());
+                effects
+            }
+        };
+        // every step ends with the core run to quiescence (a no-op event), so that what was woken
+        // outside a core call (dropped requests) is settled too
+        effects.extend(core.process_event(Event::Tick));
+        let view = core.view();
+        raws = view.raws;
+        raws.resize(n, None);
+        for r in &raws {
+            if r.is_some() && !created.contains(r) {
+                created.push(*r);
             }
         }
+        stash(&raws, &mut held, &mut rec, effects);
+        for l in &view.log[seen_log..] {
+            rec.push(show_log(&raws, l));
+        }
+        seen_log = view.log.len();
         out.push(rec.join(","));
     }
-    let mut res = vec![ids_class(&raws).to_string()];
+    let mut res = vec![ids_class(&created).to_string()];
     res.extend(out);
     res.join(" ")
 }
